@@ -143,6 +143,10 @@ func VerifC18Seq() {
 		return keyvalue.OpHandlerFunc(func(t keyvalue.Transaction, r keyvalue.OpResult) error { return nil }), false, false
 	}
 	K := verifParam("K")
+	if verifChoice("empty-transaction", 2) == 1 {
+		K = 0 // a transaction that is committed without a single call must release the store as well
+		verifTag("calls", "none")
+	}
 	for i := 0; i < K; i++ {
 		id := verifName("c", i)
 		k := verifChoice(id+".key", len(c18Keys))
